@@ -11,7 +11,8 @@ for n in sorted(r):
     own = e["checks"].get(e["property"], {})
     def st(c):
         if c.get("rc") == 1:
-            return "VIOLATION" + (" (no-failing-input-found)" if any("no-failing" in l for l in c.get("lines", [])) else " with failing input")
+            vl = [l for l in c.get("lines", []) if l.startswith("VIOLATION")]
+            return "VIOLATION" + (" (no-failing-input-found)" if vl and all("no-failing" in l for l in vl) else " with failing input")
         if c.get("rc") == 0:
             return "quiet"
         return "not run (%s)" % (e.get("apply_error", "patch does not apply on this HEAD")[:60] if not e.get("applied") else c.get("note", "error"))
